@@ -310,10 +310,46 @@ func (m *Machine) callVx(fn *ssa.Function, a []Value) Value {
 		}
 		return nil
 	case "vxTraceMutex":
+		if it, isI := a[0].(Iface); isI && it.T == nil {
+			// nil: every mutex is traced (tc keeps those whose critical section contains an
+			// operation on a traced channel)
+			m.traceAllMutex = true
+			return nil
+		}
 		if p, ok := a[0].(Iface).V.(*Value); ok && p != nil {
 			m.traceMutex[p] = true
 		}
 		return nil
+	case "vxFieldChan":
+		// the idx-th channel-typed field of the struct obj points to (so that a harness
+		// need not name an unexported field)
+		it, _ := a[0].(Iface)
+		p, ok := it.V.(*Value)
+		if !ok || p == nil {
+			m.unsupported("vxFieldChan: not a pointer to a struct")
+		}
+		st, ok := (*p).(Struct)
+		if !ok {
+			m.unsupported("vxFieldChan: not a pointer to a struct")
+		}
+		idx := int(m.toInt(a[1]))
+		for _, f := range st {
+			if ch, isCh := f.(*Chan); isCh {
+				if idx == 0 {
+					return Iface{T: m.extType("chan"), V: ch}
+				}
+				idx--
+			}
+		}
+		m.unsupported("vxFieldChan: no such channel field")
+		return nil
+	case "vxChanCap":
+		it, _ := a[0].(Iface)
+		ch, _ := it.V.(*Chan)
+		if ch == nil {
+			return int64(0)
+		}
+		return int64(ch.cap)
 	case "vxTraceMark":
 		m.SyncTrace = append(m.SyncTrace, m.mustStr(a[0], "vxTraceMark"))
 		return nil
